@@ -1,5 +1,20 @@
+/-
+  Amoco.Proofs.Fmt — helper lemmas for C14 / C20 (file formats).
+
+  Part 1 (HEX / SREC): Python slicing, `int()` on hex digit strings, `unhexlify`/`hexlify`,
+  the record printers, round trip and checksum rejection, HEX address composition.
+  Part 2 (ELF): the aligned struct walk reads at the fixed offsets of its layout, loops, layouts of
+  the patched field lists = specification tables, the refinement `elfTables = refElf` on well-formed
+  images, address queries, symbol-table entries.
+  Part 3 (read_program): which exception classes can leave each constructor, totality of the chain,
+  first-byte characterisation of the acceptance predicates.
+  Core Lean only (no Mathlib needed).
+-/
 import Amoco.Model.HexSrec
+import Amoco.Model.Elf
+
 namespace Amoco.Fmt
+
 
 theorem normIdx_nat (n a : Nat) : normIdx n (a : Int) = min a n := by
   unfold normIdx
@@ -688,5 +703,1050 @@ theorem srecLineSet_bad_cksum (r : SrecRec) (h : r.WF) (ck : Nat) (hck : ck < 25
   rw [strip_srecPrint, srecLineBody_print r h _ hck]
   have : ¬ (r.cksum = ck) := fun e => hne e.symm
   simp [this, toSrecError]
+
+
+
+/-! # Part 2 — ELF -/
+
+/-! ### struct walk = fixed offsets -/
+
+theorem slice_length (data : Bytes) (off n : Nat) : (slice data off n).length = min n (data.length - off) := by
+  simp [slice]
+
+theorem rdField_ok (be : Bool) (f : RawField) (data : Bytes) (off : Nat) (h : off + f.nbytes ≤ data.length) :
+    rdField be f data off = .ok (fieldVal be f (slice data off f.nbytes)) := by
+  unfold rdField
+  have : (slice data off f.nbytes).length = f.nbytes := by rw [slice_length]; omega
+  simp [this]
+
+theorem alignUp_add (off rel a : Nat) (h : a ∣ off) : alignUp (off + rel) a = off + alignUp rel a := by
+  unfold alignUp
+  by_cases ha : a = 0
+  · simp [ha]
+  · have hm : (off + rel) % a = rel % a := by
+      obtain ⟨k, hk⟩ := h
+      rw [hk, Nat.mul_add_mod]
+    simp only [ha, beq_iff_eq, if_false, hm]
+    by_cases hr : rel % a = 0
+    · simp [hr]
+    · simp [hr]; omega
+
+/-- the values the aligned walk delivers, read at `base +` the relative layout offsets -/
+def readAt (be : Bool) : List RawField → Bytes → Nat → Nat → Rec
+  | [], _, _, _ => []
+  | f :: fs, data, base, rel =>
+    let o := alignUp rel f.size
+    (f.name, fieldVal be f (slice data (base + o) f.nbytes)) :: readAt be fs data base (o + f.nbytes)
+
+/-- end of the relative layout -/
+def layoutEnd : List RawField → Nat → Nat
+  | [], rel => rel
+  | f :: fs, rel => layoutEnd fs (alignUp rel f.size + f.nbytes)
+
+theorem le_alignUp (off a : Nat) : off ≤ alignUp off a := by
+  unfold alignUp
+  by_cases ha : a = 0
+  · simp [ha]
+  · by_cases hr : off % a = 0
+    · simp [ha, hr]
+    · simp [ha, hr]
+
+theorem le_layoutEnd (fs : List RawField) (rel : Nat) : rel ≤ layoutEnd fs rel := by
+  induction fs generalizing rel with
+  | nil => simp [layoutEnd]
+  | cons f fs ih =>
+    simp only [layoutEnd]
+    have := ih (alignUp rel f.size + f.nbytes)
+    have := le_alignUp rel f.size
+    omega
+
+theorem unpackFields_aligned (be : Bool) (fs : List RawField) (data : Bytes) (base rel : Nat)
+    (hal : ∀ f ∈ fs, f.size ∣ base) (hin : base + layoutEnd fs rel ≤ data.length) :
+    unpackFields be true fs data (base + rel) = .ok (readAt be fs data base rel) := by
+  induction fs generalizing rel with
+  | nil => simp [unpackFields, readAt]
+  | cons f fs ih =>
+    have hf : f.size ∣ base := hal f (by simp)
+    have hle := le_layoutEnd fs (alignUp rel f.size + f.nbytes)
+    simp only [layoutEnd] at hin
+    unfold unpackFields
+    simp only [if_true]
+    rw [alignUp_add base rel f.size hf]
+    rw [rdField_ok be f data _ (by omega)]
+    have e : base + alignUp rel f.size + f.nbytes = base + (alignUp rel f.size + f.nbytes) := by omega
+    simp only [e]
+    rw [ih _ (fun g hg => hal g (by simp [hg])) hin]
+    simp [readAt]
+
+/-- packed walk (no alignment) -/
+def readAtPacked (be : Bool) : List RawField → Bytes → Nat → Rec
+  | [], _, _ => []
+  | f :: fs, data, off => (f.name, fieldVal be f (slice data off f.nbytes)) :: readAtPacked be fs data (off + f.nbytes)
+
+def packedEnd : List RawField → Nat → Nat
+  | [], off => off
+  | f :: fs, off => packedEnd fs (off + f.nbytes)
+
+theorem le_packedEnd (fs : List RawField) (off : Nat) : off ≤ packedEnd fs off := by
+  induction fs generalizing off with
+  | nil => simp [packedEnd]
+  | cons f fs ih => simp only [packedEnd]; have := ih (off + f.nbytes); omega
+
+theorem unpackFields_packed (be : Bool) (fs : List RawField) (data : Bytes) (off : Nat)
+    (hin : packedEnd fs off ≤ data.length) :
+    unpackFields be false fs data off = .ok (readAtPacked be fs data off) := by
+  induction fs generalizing off with
+  | nil => simp [unpackFields, readAtPacked]
+  | cons f fs ih =>
+    have hle := le_packedEnd fs (off + f.nbytes)
+    simp only [packedEnd] at hin
+    unfold unpackFields
+    simp only [Bool.false_eq_true, if_false]
+    rw [rdField_ok be f data _ (by omega), ih _ hin]
+    simp [readAtPacked]
+
+/-- reading through a layout table (name, offset, nbytes) -/
+def readLayout (be : Bool) (tbl : List (String × Nat × Nat)) (data : Bytes) (base : Nat) : Rec :=
+  tbl.map (fun e => (e.1, refNat be data (base + e.2.1) e.2.2))
+
+theorem readAt_eq_layout (be : Bool) (fs : List RawField) (data : Bytes) (base rel : Nat)
+    (hs : ∀ f ∈ fs, f.count = 0) :
+    readAt be fs data base rel = readLayout be (layout fs rel) data base := by
+  induction fs generalizing rel with
+  | nil => simp [readAt, layout, readLayout]
+  | cons f fs ih =>
+    have hc : f.count = 0 := hs f (by simp)
+    simp only [readAt, layout, readLayout, List.map_cons]
+    rw [ih _ (fun g hg => hs g (by simp [hg]))]
+    simp [fieldVal, hc, refNat, readLayout]
+
+theorem readAtPacked_eq_layout (be : Bool) (fs : List RawField) (data : Bytes) (off : Nat)
+    (hs : ∀ f ∈ fs, f.count = 0) :
+    readAtPacked be fs data off = readLayout be (layoutPacked fs off) data 0 := by
+  induction fs generalizing off with
+  | nil => simp [readAtPacked, layoutPacked, readLayout]
+  | cons f fs ih =>
+    have hc : f.count = 0 := hs f (by simp)
+    simp only [readAtPacked, layoutPacked, readLayout, List.map_cons]
+    rw [ih _ (fun g hg => hs g (by simp [hg]))]
+    simp [fieldVal, hc, refNat, readLayout]
+
+theorem refStruct_nil_eq (be : Bool) (tbl : List (String × Nat × Nat)) (data : Bytes) (base : Nat) :
+    refStruct be [] tbl data base = readLayout be tbl data base := by
+  simp [refStruct, readLayout]
+
+
+/-! ### loops -/
+
+theorem tableM_ok {α} (rd : Nat → Py α) (g : Nat → α) (n off stride : Nat)
+    (h : ∀ i, i < n → rd (off + i * stride) = .ok (g (off + i * stride))) :
+    tableM rd n off stride = .ok ((List.range n).map (fun i => g (off + i * stride))) := by
+  induction n generalizing off with
+  | zero => simp [tableM]
+  | succ n ih =>
+    have h0 := h 0 (by omega)
+    simp only [Nat.zero_mul, Nat.add_zero] at h0
+    have hrest : ∀ i, i < n → rd (off + stride + i * stride) = .ok (g (off + stride + i * stride)) := by
+      intro i hi
+      have := h (i + 1) (by omega)
+      have e : off + (i + 1) * stride = off + stride + i * stride := by rw [Nat.add_mul]; omega
+      rw [e] at this; exact this
+    unfold tableM
+    rw [h0, ih (off + stride) hrest]
+    simp only [List.range_succ_eq_map, List.map_cons, List.map_map, Nat.zero_mul, Nat.add_zero]
+    congr 2
+    apply List.map_congr_left
+    intro i _
+    simp only [Function.comp]
+    have e : off + (i + 1) * stride = off + stride + i * stride := by rw [Nat.add_mul]; omega
+    rw [e]
+
+theorem tablePrefix_ok {α} (rd : Nat → Py α) (g : Nat → α) (n off stride : Nat)
+    (h : ∀ i, i < n → rd (off + i * stride) = .ok (g (off + i * stride))) :
+    tablePrefix rd n off stride = (List.range n).map (fun i => g (off + i * stride)) := by
+  induction n generalizing off with
+  | zero => simp [tablePrefix]
+  | succ n ih =>
+    have h0 := h 0 (by omega)
+    simp only [Nat.zero_mul, Nat.add_zero] at h0
+    have hrest : ∀ i, i < n → rd (off + stride + i * stride) = .ok (g (off + stride + i * stride)) := by
+      intro i hi
+      have := h (i + 1) (by omega)
+      have e : off + (i + 1) * stride = off + stride + i * stride := by rw [Nat.add_mul]; omega
+      rw [e] at this; exact this
+    unfold tablePrefix
+    rw [h0, ih (off + stride) hrest]
+    simp only [List.range_succ_eq_map, List.map_cons, List.map_map, Nat.zero_mul, Nat.add_zero]
+    congr 1
+    apply List.map_congr_left
+    intro i _
+    simp only [Function.comp]
+    have e : off + (i + 1) * stride = off + stride + i * stride := by rw [Nat.add_mul]; omega
+    rw [e]
+
+/-! ### the layouts of the (patched) field lists are the specification's tables -/
+
+theorem layout_ident : layout identFields 0 = specIdent := by decide
+theorem layout_ehdr (x64 : Bool) : layoutPacked (ehdrFields x64) 16 = specEhdr x64 := by cases x64 <;> decide
+theorem layout_phdr (x64 : Bool) : layout (phdrFields x64) 0 = specPhdr x64 := by cases x64 <;> decide
+theorem layout_shdr (x64 : Bool) : layout (shdrFields x64) 0 = specShdr x64 := by cases x64 <;> decide
+theorem layout_sym (x64 : Bool) : layout (symFields x64) 0 = specSym x64 := by cases x64 <;> decide
+theorem layout_rel (x64 : Bool) : layout (relFields x64) 0 = specRel x64 := by cases x64 <;> decide
+theorem layout_rela (x64 : Bool) : layout (relaFields x64) 0 = specRela x64 := by cases x64 <;> decide
+theorem layout_dyn (x64 : Bool) : layout (dynFields x64) 0 = specDyn x64 := by cases x64 <;> decide
+
+/-- natural alignment of the class: 4 (ELF32) or 8 (ELF64) -/
+def elfA (x64 : Bool) : Nat := if x64 then 8 else 4
+def phdrSize (x64 : Bool) : Nat := if x64 then 56 else 32
+def shdrSize (x64 : Bool) : Nat := if x64 then 64 else 40
+def ehdrSize (x64 : Bool) : Nat := if x64 then 64 else 52
+
+theorem phdr_facts (x64 : Bool) :
+    (∀ f ∈ phdrFields x64, f.count = 0) ∧ (∀ f ∈ phdrFields x64, f.size ∣ elfA x64) ∧
+    layoutEnd (phdrFields x64) 0 = phdrSize x64 := by cases x64 <;> decide
+
+theorem shdr_facts (x64 : Bool) :
+    (∀ f ∈ shdrFields x64, f.count = 0) ∧ (∀ f ∈ shdrFields x64, f.size ∣ elfA x64) ∧
+    layoutEnd (shdrFields x64) 0 = shdrSize x64 := by cases x64 <;> decide
+
+theorem ehdr_facts (x64 : Bool) :
+    (∀ f ∈ ehdrFields x64, f.count = 0) ∧ packedEnd (ehdrFields x64) 16 = ehdrSize x64 := by cases x64 <;> decide
+
+
+/-! ### table entries: the struct walk at an aligned, in-bounds base reads the specification's table -/
+
+theorem structUnpack_phdr (be x64 : Bool) (data : Bytes) (base : Nat)
+    (hal : elfA x64 ∣ base) (hin : base + phdrSize x64 ≤ data.length) :
+    structUnpack be (phdrFields x64) data base = .ok (refStruct be [] (specPhdr x64) data base) := by
+  obtain ⟨hs, hd, he⟩ := phdr_facts x64
+  unfold structUnpack
+  have := unpackFields_aligned be (phdrFields x64) data base 0
+    (fun f hf => Nat.dvd_trans (hd f hf) hal) (by rw [he]; exact hin)
+  rw [Nat.add_zero] at this
+  rw [this, readAt_eq_layout be _ data base 0 hs, layout_phdr, refStruct_nil_eq]
+  rfl
+
+theorem structUnpack_shdr (be x64 : Bool) (data : Bytes) (base : Nat)
+    (hal : elfA x64 ∣ base) (hin : base + shdrSize x64 ≤ data.length) :
+    structUnpack be (shdrFields x64) data base = .ok (refStruct be [] (specShdr x64) data base) := by
+  obtain ⟨hs, hd, he⟩ := shdr_facts x64
+  unfold structUnpack
+  have := unpackFields_aligned be (shdrFields x64) data base 0
+    (fun f hf => Nat.dvd_trans (hd f hf) hal) (by rw [he]; exact hin)
+  rw [Nat.add_zero] at this
+  rw [this, readAt_eq_layout be _ data base 0 hs, layout_shdr, refStruct_nil_eq]
+  rfl
+
+theorem dvd_entry (A off stride i : Nat) (h1 : A ∣ off) (h2 : A ∣ stride) : A ∣ off + i * stride :=
+  Nat.dvd_add h1 (Nat.dvd_trans h2 (Nat.dvd_mul_left stride i))
+
+theorem phdrTable_ok (be x64 : Bool) (data : Bytes) (n off stride : Nat)
+    (h1 : elfA x64 ∣ off) (h2 : elfA x64 ∣ stride)
+    (hin : ∀ i, i < n → off + i * stride + phdrSize x64 ≤ data.length) :
+    tableM (fun o => structUnpack be (phdrFields x64) data o) n off stride
+      = .ok (refTable be (specPhdr x64) data n off stride) := by
+  rw [tableM_ok _ (fun o => refStruct be [] (specPhdr x64) data o) n off stride]
+  · rfl
+  · intro i hi
+    exact structUnpack_phdr be x64 data _ (dvd_entry _ _ _ _ h1 h2) (hin i hi)
+
+theorem shdrTable_ok (be x64 : Bool) (data : Bytes) (n off stride : Nat)
+    (h1 : elfA x64 ∣ off) (h2 : elfA x64 ∣ stride)
+    (hin : ∀ i, i < n → off + i * stride + shdrSize x64 ≤ data.length) :
+    tablePrefix (fun o => structUnpack be (shdrFields x64) data o) n off stride
+      = refTable be (specShdr x64) data n off stride := by
+  rw [tablePrefix_ok _ (fun o => refStruct be [] (specShdr x64) data o) n off stride]
+  · rfl
+  · intro i hi
+    exact structUnpack_shdr be x64 data _ (dvd_entry _ _ _ _ h1 h2) (hin i hi)
+
+/-! ### header -/
+
+theorem ident_ok (data : Bytes) (h : 16 ≤ data.length) :
+    structUnpack false identFields data 0 = .ok (refStruct false ["ELFMAG", "unused"] specIdent data 0) := by
+  unfold structUnpack
+  have := unpackFields_aligned false identFields data 0 0 (by decide) (by
+    have : layoutEnd identFields 0 = 16 := by decide
+    rw [this]; omega)
+  rw [Nat.add_zero] at this
+  rw [this]
+  simp [readAt, identFields, refStruct, specIdent, alignUp, fieldVal, RawField.nbytes, refNat, toStructureError]
+
+theorem ehdr_ok (be x64 : Bool) (data : Bytes) (h : ehdrSize x64 ≤ data.length) :
+    unpackFields be false (ehdrFields x64) data 16 = .ok (refStruct be [] (specEhdr x64) data 0) := by
+  obtain ⟨hs, he⟩ := ehdr_facts x64
+  rw [unpackFields_packed be _ data 16 (by rw [he]; exact h), readAtPacked_eq_layout be _ data 16 hs,
+    layout_ehdr, refStruct_nil_eq]
+
+/-! ### names -/
+
+theorem nameSections_ok (tab : Bytes) (sh : List Rec)
+    (h : ∀ s ∈ sh, utf8Valid (cstrAt tab (fget s "sh_name")) = true) :
+    nameSections tab sh = .ok (sh.map (fun s => { hdr := s, name := cstrAt tab (fget s "sh_name") })) := by
+  induction sh with
+  | nil => rfl
+  | cons s rest ih =>
+    have hs := h s (by simp)
+    unfold nameSections
+    simp only [decodeUtf8, hs, if_true]
+    rw [ih (fun x hx => h x (by simp [hx]))]
+    simp
+
+
+/-! ### well-formed images and the main refinement -/
+
+/-- A structurally valid ELF image, stated on what the *reference reader* sees: magic, the header
+    and both tables inside the file and naturally aligned for the class (gABI: "all data structures
+    follow the natural size and alignment guidelines for the relevant class"), every segment type one that amoco's constant table knows, `e_shstrndx` a string table below 2^63 whose
+    names are UTF-8. -/
+structure ElfWF (env : ElfEnv) (data : Bytes) : Prop where
+  len : ehdrSize (refElf data).x64 ≤ data.length
+  magic0 : fget (refElf data).ident "ELFMAG0" = 0x7f
+  magic : fget (refElf data).ident "ELFMAG" = 0x454c46
+  ph_al : elfA (refElf data).x64 ∣ fget (refElf data).ehdr "e_phoff" ∧
+          elfA (refElf data).x64 ∣ fget (refElf data).ehdr "e_phentsize"
+  ph_in : ∀ i, i < fget (refElf data).ehdr "e_phnum" →
+          fget (refElf data).ehdr "e_phoff" + i * fget (refElf data).ehdr "e_phentsize" + phdrSize (refElf data).x64 ≤ data.length
+  ph_known : ∀ p ∈ (refElf data).phdr, keepPhdr env p = true
+  sh_al : elfA (refElf data).x64 ∣ fget (refElf data).ehdr "e_shoff" ∧
+          elfA (refElf data).x64 ∣ fget (refElf data).ehdr "e_shentsize"
+  sh_in : ∀ i, i < fget (refElf data).ehdr "e_shnum" →
+          fget (refElf data).ehdr "e_shoff" + i * fget (refElf data).ehdr "e_shentsize" + shdrSize (refElf data).x64 ≤ data.length
+  strndx_pos : fget (refElf data).ehdr "e_shstrndx" ≠ 0
+  strndx_lt : fget (refElf data).ehdr "e_shstrndx" < (refElf data).shdr.length
+  strtab : fget ((refElf data).shdr.getD (fget (refElf data).ehdr "e_shstrndx") []) "sh_type" = SHT_STRTAB
+  str_off : fget ((refElf data).shdr.getD (fget (refElf data).ehdr "e_shstrndx") []) "sh_offset" < pow63
+  str_size : fget ((refElf data).shdr.getD (fget (refElf data).ehdr "e_shstrndx") []) "sh_size" < pow63
+  names_utf8 : ∀ nm ∈ (refElf data).names, utf8Valid nm = true
+
+theorem ehdrSize_ge (x64 : Bool) : 16 ≤ ehdrSize x64 := by cases x64 <;> decide
+
+theorem elfTables_eq_ref (env : ElfEnv) (data : Bytes) (h : ElfWF env data) :
+    ∃ t, elfTables env data = .ok t ∧
+      t.ident = (refElf data).ident ∧ t.ehdr = (refElf data).ehdr ∧
+      t.x64 = (refElf data).x64 ∧ t.be = (refElf data).be ∧
+      t.phdr = (refElf data).phdr ∧
+      t.shdr.map (·.hdr) = (refElf data).shdr ∧
+      t.shdr.map (·.name) = (refElf data).names := by
+  have hlen16 : 16 ≤ data.length := Nat.le_trans (ehdrSize_ge _) h.len
+  -- abbreviations for what the reference reads
+  let R := refElf data
+  have hident := ident_ok data hlen16
+  have hx64 : identX64 (refStruct false ["ELFMAG", "unused"] specIdent data 0) = R.x64 := by
+    simp [identX64, refStruct, specIdent, fget, List.lookup, R, refElf]
+  have hbe : identBE (refStruct false ["ELFMAG", "unused"] specIdent data 0) = R.be := by
+    simp [identBE, refStruct, specIdent, fget, List.lookup, R, refElf]
+  have hRident : R.ident = refStruct false ["ELFMAG", "unused"] specIdent data 0 := rfl
+  have hReh : R.ehdr = refStruct R.be [] (specEhdr R.x64) data 0 := rfl
+  have hm0 := h.magic0
+  have hm := h.magic
+  rw [show (refElf data).ident = R.ident from rfl, hRident] at hm0 hm
+  have hI : elfIdent data = .ok R.ident := by
+    unfold elfIdent
+    rw [hident]
+    simp only [hm0, hm, hRident]
+    simp
+  have hE : elfEhdr R.ident data = .ok R.ehdr := by
+    unfold elfEhdr
+    rw [hRident, hx64, hbe, hReh]
+    exact ehdr_ok R.be R.x64 data h.len
+  have hRph : R.phdr = if fget R.ehdr "e_phoff" != 0 then
+      refTable R.be (specPhdr R.x64) data (fget R.ehdr "e_phnum") (fget R.ehdr "e_phoff") (fget R.ehdr "e_phentsize") else [] := rfl
+  have hRsh : R.shdr = if fget R.ehdr "e_shoff" != 0 then
+      refTable R.be (specShdr R.x64) data (fget R.ehdr "e_shnum") (fget R.ehdr "e_shoff") (fget R.ehdr "e_shentsize") else [] := rfl
+  have hP : elfPhdrsAll R.be R.x64 R.ehdr data = .ok R.phdr := by
+    unfold elfPhdrsAll
+    rw [hRph]
+    by_cases hz : (fget R.ehdr "e_phoff" != 0) = true
+    · simp only [hz, if_true]
+      exact phdrTable_ok R.be R.x64 data _ _ _ h.ph_al.1 h.ph_al.2 h.ph_in
+    · simp only [hz]; rfl
+  have hS : elfShdrsAll R.be R.x64 R.ehdr data = R.shdr := by
+    unfold elfShdrsAll
+    rw [hRsh]
+    by_cases hz : (fget R.ehdr "e_shoff" != 0) = true
+    · simp only [hz, if_true]
+      exact shdrTable_ok R.be R.x64 data _ _ _ h.sh_al.1 h.sh_al.2 h.sh_in
+    · simp only [hz]; rfl
+  have hpf : R.phdr.filter (keepPhdr env) = R.phdr := List.filter_eq_self.mpr h.ph_known
+  have hRnames : R.names = R.shdr.map (fun s => cstrAt
+      (slice data (fget (R.shdr.getD (fget R.ehdr "e_shstrndx") []) "sh_offset")
+                  (fget (R.shdr.getD (fget R.ehdr "e_shstrndx") []) "sh_size")) (fget s "sh_name")) := rfl
+  have hN : elfNames R.ehdr R.shdr data =
+      .ok (R.shdr.map (fun s => ({ hdr := s, name := (cstrAt
+        (slice data (fget (R.shdr.getD (fget R.ehdr "e_shstrndx") []) "sh_offset")
+                    (fget (R.shdr.getD (fget R.ehdr "e_shstrndx") []) "sh_size")) (fget s "sh_name")) } : Section))) := by
+    unfold elfNames
+    have c1 : (fget R.ehdr "e_shstrndx" != 0 && decide (fget R.ehdr "e_shstrndx" < R.shdr.length)) = true := by
+      simp [h.strndx_pos, h.strndx_lt, R]
+    have e2 : fget (R.shdr.getD (fget R.ehdr "e_shstrndx") []) "sh_type" = SHT_STRTAB := h.strtab
+    have c2 : (fget (R.shdr.getD (fget R.ehdr "e_shstrndx") []) "sh_type" != SHT_STRTAB) = false := by
+      rw [e2]; simp
+    have a1 : fget (R.shdr.getD (fget R.ehdr "e_shstrndx") []) "sh_offset" < pow63 := h.str_off
+    have a2 : fget (R.shdr.getD (fget R.ehdr "e_shstrndx") []) "sh_size" < pow63 := h.str_size
+    have c3 : fileRead data (fget (R.shdr.getD (fget R.ehdr "e_shstrndx") []) "sh_offset")
+        (fget (R.shdr.getD (fget R.ehdr "e_shstrndx") []) "sh_size") = .ok
+          (slice data (fget (R.shdr.getD (fget R.ehdr "e_shstrndx") []) "sh_offset")
+                  (fget (R.shdr.getD (fget R.ehdr "e_shstrndx") []) "sh_size")) := by
+      unfold fileRead
+      have n1 : ¬ (fget (R.shdr.getD (fget R.ehdr "e_shstrndx") []) "sh_offset" ≥ pow63) := by omega
+      have n2 : ¬ (fget (R.shdr.getD (fget R.ehdr "e_shstrndx") []) "sh_size" ≥ pow63) := by omega
+      rw [decide_eq_false n1, decide_eq_false n2]
+      rfl
+    simp only [c1, c2, if_true, Bool.false_eq_true, if_false, c3]
+    apply nameSections_ok
+    intro s hs
+    apply h.names_utf8
+    rw [show (refElf data).names = R.names from rfl, hRnames]
+    exact List.mem_map_of_mem hs
+  refine ⟨{ ident := R.ident, ehdr := R.ehdr, x64 := R.x64, be := R.be,
+            dynamic := R.phdr.any (fun p => fget p "p_type" == PT_INTERP), basemap := basemapOf R.phdr none,
+            phdr := R.phdr,
+            shdr := R.shdr.map (fun s => ({ hdr := s, name := (cstrAt
+              (slice data (fget (R.shdr.getD (fget R.ehdr "e_shstrndx") []) "sh_offset")
+                          (fget (R.shdr.getD (fget R.ehdr "e_shstrndx") []) "sh_size")) (fget s "sh_name")) } : Section)) },
+          ?_, rfl, rfl, rfl, rfl, rfl, ?_, ?_⟩
+  · unfold elfTables
+    rw [hI]
+    simp only [hE]
+    rw [hRident, hx64, hbe]
+    simp only [hP, hS, hN, hpf]
+  · show List.map (fun (x : Section) => x.hdr) (List.map _ R.shdr) = R.shdr
+    rw [List.map_map]
+    exact List.map_id'' (fun _ => rfl) _
+  · rw [show (refElf data).names = R.names from rfl, hRnames]
+    show List.map (fun (x : Section) => x.name) (List.map _ R.shdr) = _
+    rw [List.map_map]
+    rfl
+
+
+/-! ### address queries -/
+
+theorem findLastIdxAux_spec {α} (p : α → Bool) (l : List α) (i : Nat) (acc : Option Nat) :
+    (findLastIdxAux p l i acc = acc ∧ ∀ x ∈ l, p x = false) ∨
+    (∃ k, findLastIdxAux p l i acc = some (i + k) ∧ k < l.length ∧
+       (∃ x, l[k]? = some x ∧ p x = true) ∧ ∀ j x, k < j → l[j]? = some x → p x = false) := by
+  induction l generalizing i acc with
+  | nil => left; simp [findLastIdxAux]
+  | cons a t ih =>
+    unfold findLastIdxAux
+    rcases ih (i + 1) (if p a = true then some i else acc) with ⟨h1, h2⟩ | ⟨k, h1, h2, h3, h4⟩
+    · by_cases ha : p a = true
+      · right
+        refine ⟨0, ?_, by simp, ⟨a, by simp, ha⟩, ?_⟩
+        · rw [h1]; simp [ha]
+        · intro j x hj hx
+          cases j with
+          | zero => omega
+          | succ j =>
+            simp only [List.getElem?_cons_succ] at hx
+            exact h2 x (List.mem_of_getElem? hx)
+      · left
+        simp only [ha, Bool.false_eq_true, if_false] at h1 ⊢
+        refine ⟨h1, ?_⟩
+        intro x hx
+        simp only [List.mem_cons] at hx
+        rcases hx with rfl | hx
+        · simpa using ha
+        · exact h2 x hx
+    · right
+      refine ⟨k + 1, ?_, by simp; omega, ?_, ?_⟩
+      · rw [h1]; congr 1; omega
+      · obtain ⟨x, hx, hp⟩ := h3
+        exact ⟨x, by simpa using hx, hp⟩
+      · intro j x hj hx
+        cases j with
+        | zero => omega
+        | succ j =>
+          simp only [List.getElem?_cons_succ] at hx
+          exact h4 j x (by omega) hx
+
+theorem findLastIdx_some {α} (p : α → Bool) (l : List α) (k : Nat) (h : findLastIdx p l = some k) :
+    k < l.length ∧ (∃ x, l[k]? = some x ∧ p x = true) ∧ ∀ j x, k < j → l[j]? = some x → p x = false := by
+  unfold findLastIdx at h
+  rcases findLastIdxAux_spec p l 0 none with ⟨h1, _⟩ | ⟨k', h1, h2, h3, h4⟩
+  · rw [h1] at h; cases h
+  · rw [h1] at h
+    have : k = k' := by simp at h; omega
+    subst this
+    exact ⟨h2, h3, h4⟩
+
+theorem findLastIdx_none {α} (p : α → Bool) (l : List α) (h : findLastIdx p l = none) :
+    ∀ x ∈ l, p x = false := by
+  unfold findLastIdx at h
+  rcases findLastIdxAux_spec p l 0 none with ⟨_, h2⟩ | ⟨k', h1, _, _, _⟩
+  · exact h2
+  · rw [h1] at h; cases h
+
+/-- the predicate `getinfo` scans the section list with -/
+def secHolds (addr : Nat) (s : Section) : Bool :=
+  fget s.hdr "sh_type" == SHT_PROGBITS && decide (fget s.hdr "sh_addr" ≤ addr) &&
+    decide (addr < fget s.hdr "sh_addr" + fget s.hdr "sh_size")
+
+theorem getinfo_sec (t : ElfTables) (addr : Nat) (hne : t.shdr ≠ []) :
+    (∃ i s, t.shdr[i]? = some s ∧ secHolds addr s = true ∧
+        (∀ j s', i < j → t.shdr[j]? = some s' → secHolds addr s' = false) ∧
+        getinfo t addr = (.sec i, addr - fget s.hdr "sh_addr", fget s.hdr "sh_addr") ∧
+        getfileoffset t addr = some (fget s.hdr "sh_offset" + (addr - fget s.hdr "sh_addr"))) ∨
+    ((∀ s ∈ t.shdr, secHolds addr s = false) ∧ getinfo t addr = (.none, 0, 0) ∧ getfileoffset t addr = none) := by
+  have he : t.shdr.isEmpty = false := by
+    cases hs : t.shdr with
+    | nil => exact absurd hs hne
+    | cons a b => rfl
+  cases hf : findLastIdx (secHolds addr) t.shdr with
+  | none =>
+    right
+    refine ⟨findLastIdx_none _ _ hf, ?_, ?_⟩
+    · unfold getinfo
+      simp only [he, Bool.not_false, if_true]
+      have : findLastIdx (fun (s : Section) => fget s.hdr "sh_type" == SHT_PROGBITS &&
+          decide (fget s.hdr "sh_addr" ≤ addr) && decide (addr < fget s.hdr "sh_addr" + fget s.hdr "sh_size")) t.shdr = none := hf
+      rw [this]
+    · unfold getfileoffset getinfo
+      simp only [he, Bool.not_false, if_true]
+      have : findLastIdx (fun (s : Section) => fget s.hdr "sh_type" == SHT_PROGBITS &&
+          decide (fget s.hdr "sh_addr" ≤ addr) && decide (addr < fget s.hdr "sh_addr" + fget s.hdr "sh_size")) t.shdr = none := hf
+      rw [this]
+  | some i =>
+    left
+    obtain ⟨hlt, ⟨s, hs, hp⟩, hlast⟩ := findLastIdx_some _ _ _ hf
+    have hget : t.shdr.getD i default = s := by
+      simp [List.getD, hs]
+    have hgi : getinfo t addr = (.sec i, addr - fget s.hdr "sh_addr", fget s.hdr "sh_addr") := by
+      unfold getinfo
+      simp only [he, Bool.not_false, if_true]
+      have : findLastIdx (fun (s : Section) => fget s.hdr "sh_type" == SHT_PROGBITS &&
+          decide (fget s.hdr "sh_addr" ≤ addr) && decide (addr < fget s.hdr "sh_addr" + fget s.hdr "sh_size")) t.shdr = some i := hf
+      rw [this]
+      simp only [hget]
+    refine ⟨i, s, hs, hp, hlast, hgi, ?_⟩
+    unfold getfileoffset
+    rw [hgi]
+    simp only [hget]
+
+
+/-! ### symbol / relocation / dynamic tables -/
+
+def symSize (x64 : Bool) : Nat := if x64 then 24 else 16
+
+theorem sym_facts (x64 : Bool) :
+    (∀ f ∈ symFields x64, f.count = 0) ∧ (∀ f ∈ symFields x64, f.size ∣ elfA x64) ∧
+    layoutEnd (symFields x64) 0 = symSize x64 := by cases x64 <;> decide
+
+theorem structUnpack_sym (be x64 : Bool) (data : Bytes) (base : Nat)
+    (hal : elfA x64 ∣ base) (hin : base + symSize x64 ≤ data.length) :
+    structUnpack be (symFields x64) data base = .ok (refStruct be [] (specSym x64) data base) := by
+  obtain ⟨hs, hd, he⟩ := sym_facts x64
+  unfold structUnpack
+  have := unpackFields_aligned be (symFields x64) data base 0
+    (fun f hf => Nat.dvd_trans (hd f hf) hal) (by rw [he]; exact hin)
+  rw [Nat.add_zero] at this
+  rw [this, readAt_eq_layout be _ data base 0 hs, layout_sym, refStruct_nil_eq]
+  rfl
+
+/-- `__read_symtab` on the bytes of a symbol-table section: entry `i` is the specification's
+    `Elf32_Sym` / `Elf64_Sym` at `i · sh_entsize`. -/
+theorem readEntries_sym (be x64 : Bool) (S : Rec) (bytes : Bytes)
+    (hent : fget S "sh_entsize" ≠ 0) (hmod : fget S "sh_size" % fget S "sh_entsize" = 0)
+    (hbig : fget S "sh_size" / fget S "sh_entsize" ≤ bigTable)
+    (hal : elfA x64 ∣ fget S "sh_entsize") (hne : bytes ≠ [])
+    (hin : ∀ i, i < fget S "sh_size" / fget S "sh_entsize" → i * fget S "sh_entsize" + symSize x64 ≤ bytes.length) :
+    readEntries be (symFields x64) S bytes =
+      .ok ((refTable be (specSym x64) bytes (fget S "sh_size" / fget S "sh_entsize") 0 (fget S "sh_entsize")).map some) := by
+  unfold readEntries
+  have e1 : (fget S "sh_entsize" == 0) = false := by simpa using hent
+  have e2 : (fget S "sh_size" % fget S "sh_entsize" != 0) = false := by simp [hmod]
+  have e3 : ¬ (fget S "sh_size" / fget S "sh_entsize" > bigTable) := by omega
+  have e4 : bytes.isEmpty = false := by cases bytes with | nil => exact absurd rfl hne | cons a b => rfl
+  simp only [e1, e2, e3, e4, bind, Except.bind, Bool.false_eq_true, if_false, pure, Except.pure]
+  rw [tableM_ok _ (fun o => some (refStruct be [] (specSym x64) bytes o))]
+  · simp [refTable, List.map_map, Function.comp]
+  · intro i hi
+    have := structUnpack_sym be x64 bytes (0 + i * fget S "sh_entsize")
+      (dvd_entry _ _ _ _ (Nat.dvd_zero _) hal) (by have := hin i hi; omega)
+    rw [this]; rfl
+
+
+/-! ### which exceptions can leave the constructors (C20) -/
+
+def Raises {α} (S : PyExn → Prop) (x : Py α) : Prop := ∀ e, x = .error e → S e
+
+theorem raises_bind {α β} {S : PyExn → Prop} {x : Py α} {f : α → Py β}
+    (hx : Raises S x) (hf : ∀ a, Raises S (f a)) : Raises S (x >>= f) := by
+  intro e he
+  cases x with
+  | error e' => simp [bind, Except.bind] at he; subst he; exact hx e' rfl
+  | ok a => exact hf a e he
+
+theorem raises_pure {α} {S : PyExn → Prop} (a : α) : Raises S (pure a : Py α) := by
+  intro e he; cases he
+
+theorem raises_ok {α} {S : PyExn → Prop} (a : α) : Raises S (.ok a : Py α) := by
+  intro e he; cases he
+
+def AV (e : PyExn) : Prop := e = .assertion ∨ e = .value
+
+theorem raises_pyAssert (b : Bool) : Raises AV (pyAssert b) := by
+  intro e he; unfold pyAssert at he; split at he
+  · cases he
+  · cases he; exact Or.inl rfl
+
+theorem raises_pyInt (base : Nat) (s : List Nat) : Raises AV (pyInt base s) := by
+  intro e he
+  unfold pyInt at he
+  simp only [] at he
+  repeat' split at he
+  all_goals first
+    | (cases he; exact Or.inr rfl)
+    | (cases he)
+
+theorem raises_unhexlify : ∀ s : List Nat, Raises AV (unhexlify s)
+  | [] => by intro e he; simp [unhexlify] at he
+  | [_] => by intro e he; simp [unhexlify] at he; subst he; exact Or.inr rfl
+  | a :: b :: t => by
+    intro e he
+    have ih := raises_unhexlify t
+    rw [unhexlify] at he
+    cases hx : hexVal? a with
+    | none => simp [hx] at he; subst he; exact Or.inr rfl
+    | some x =>
+      cases hy : hexVal? b with
+      | none => simp [hx, hy] at he; subst he; exact Or.inr rfl
+      | some y =>
+        cases hr : unhexlify t with
+        | ok r => simp [hx, hy, hr] at he
+        | error e' => simp [hx, hy, hr] at he; subst he; exact ih e' hr
+
+
+theorem raises_hexExtOf (code count : Int) (data : List Nat) : Raises AV (hexExtOf code count data) := by
+  unfold hexExtOf
+  simp only []
+  split
+  · exact raises_bind (raises_pyAssert _) (fun _ => raises_bind (raises_pyInt _ _) (fun _ => raises_pure _))
+  · split
+    · exact raises_bind (raises_pyAssert _) (fun _ => raises_bind (raises_pyInt _ _) (fun _ =>
+        raises_bind (raises_pyInt _ _) (fun _ => raises_pure _)))
+    · split
+      · exact raises_bind (raises_pyAssert _) (fun _ => raises_bind (raises_pyInt _ _) (fun _ => raises_pure _))
+      · split
+        · exact raises_bind (raises_pyAssert _) (fun _ => raises_bind (raises_pyInt _ _) (fun _ => raises_pure _))
+        · exact raises_pure _
+
+theorem raises_hexLineBody (line : List Nat) : Raises AV (hexLineBody line) := by
+  unfold hexLineBody
+  refine raises_bind (raises_pyAssert _) (fun _ => ?_)
+  refine raises_bind (raises_pyInt _ _) (fun count => ?_)
+  refine raises_bind (raises_pyInt _ _) (fun address => ?_)
+  refine raises_bind (raises_pyInt _ _) (fun code => ?_)
+  refine raises_bind (raises_unhexlify _) (fun data => ?_)
+  refine raises_bind (raises_unhexlify _) (fun s => ?_)
+  refine raises_bind (raises_pyInt _ _) (fun last => ?_)
+  refine raises_bind (raises_pyAssert _) (fun _ => ?_)
+  refine raises_bind (raises_hexExtOf _ _ _) (fun ext => ?_)
+  exact raises_pure _
+
+def OnlyHex (e : PyExn) : Prop := e = .hexError
+def OnlySrec (e : PyExn) : Prop := e = .srecError
+
+theorem raises_hexLineSet (raw : List Nat) : Raises OnlyHex (hexLineSet raw) := by
+  intro e he
+  unfold hexLineSet at he
+  have hb := raises_hexLineBody (strip raw)
+  cases hbody : hexLineBody (strip raw) with
+  | ok v => rw [hbody] at he; simp [toHexError] at he
+  | error e' =>
+    rw [hbody] at he
+    rcases hb e' hbody with h | h <;> subst h <;> simp [toHexError] at he <;> exact he.symm
+
+theorem raises_hexInitLoop (ls : List (List Nat)) (acc : HexFile) : Raises OnlyHex (hexInitLoop ls acc) := by
+  induction ls generalizing acc with
+  | nil => intro e he; simp [hexInitLoop] at he
+  | cons raw rest ih =>
+    intro e he
+    unfold hexInitLoop at he
+    cases hl : hexLineSet raw with
+    | error e' => rw [hl] at he; simp at he; subst he; exact raises_hexLineSet raw e' hl
+    | ok l => rw [hl] at he; exact ih _ e he
+
+theorem raises_hexInit (data : Bytes) : Raises OnlyHex (hexInit data) := raises_hexInitLoop _ _
+
+def AVS (e : PyExn) : Prop := e = .assertion ∨ e = .value ∨ e = .srecError
+
+theorem av_avs {α} {x : Py α} (h : Raises AV x) : Raises AVS x := by
+  intro e he
+  rcases h e he with h | h
+  · exact Or.inl h
+  · exact Or.inr (Or.inl h)
+
+theorem raises_srecLineBody (line : List Nat) : Raises AVS (srecLineBody line) := by
+  unfold srecLineBody
+  refine raises_bind (av_avs (raises_pyAssert _)) (fun _ => ?_)
+  refine raises_bind (av_avs (raises_pyInt _ _)) (fun ty => ?_)
+  refine raises_bind (av_avs (raises_pyInt _ _)) (fun count => ?_)
+  refine raises_bind (av_avs (raises_pyInt _ _)) (fun address => ?_)
+  refine raises_bind (av_avs (raises_unhexlify _)) (fun data => ?_)
+  refine raises_bind (av_avs (raises_pyAssert _)) (fun _ => ?_)
+  refine raises_bind (av_avs (raises_unhexlify _)) (fun s => ?_)
+  refine raises_bind (av_avs (raises_pyInt _ _)) (fun last => ?_)
+  intro e he
+  simp only [] at he
+  split at he
+  · simp [throw, throwThe, MonadExceptOf.throw, bind, Except.bind] at he
+    subst he; exact Or.inr (Or.inr rfl)
+  · cases he
+
+theorem raises_srecLineSet (raw : List Nat) : Raises OnlySrec (srecLineSet raw) := by
+  intro e he
+  unfold srecLineSet at he
+  have hb := raises_srecLineBody (strip raw)
+  cases hbody : srecLineBody (strip raw) with
+  | ok v => rw [hbody] at he; simp [toSrecError] at he
+  | error e' =>
+    rw [hbody] at he
+    rcases hb e' hbody with h | h | h <;> subst h <;> simp [toSrecError] at he <;> exact he.symm
+
+theorem raises_srecInitLoop (ls : List (List Nat)) (acc : SrecFile) : Raises OnlySrec (srecInitLoop ls acc) := by
+  induction ls generalizing acc with
+  | nil => intro e he; simp [srecInitLoop] at he
+  | cons raw rest ih =>
+    intro e he
+    unfold srecInitLoop at he
+    split at he
+    · exact ih _ e he
+    · cases hl : srecLineSet raw with
+      | error e' => rw [hl] at he; simp at he; subst he; exact raises_srecLineSet raw e' hl
+      | ok l => rw [hl] at he; exact ih _ e he
+
+theorem raises_srecInit (data : Bytes) : Raises OnlySrec (srecInit data) := raises_srecInitLoop _ _
+
+def ElfOrStruct (e : PyExn) : Prop := e = .elfError ∨ e = .structureError
+
+theorem raises_elfInit (env : ElfEnv) (data : Bytes) : Raises ElfOrStruct (elfInit env data) := by
+  intro e he
+  unfold elfInit at he
+  cases hr : elfParseRaw env data with
+  | ok v => rw [hr] at he; simp [toElfError] at he
+  | error e' =>
+    rw [hr] at he
+    cases e' <;> simp [toElfError] at he <;> subst he <;> first | exact Or.inl rfl | exact Or.inr rfl
+
+/-- `read_program` returns a format object or the raw fallback for every byte string. -/
+theorem readProgram_total (env : ElfEnv) (B : Bodies) (data : Bytes) :
+    ∃ o, readProgram env B data = .ok o := by
+  unfold readProgram
+  -- ELF
+  cases h1 : elfInit env data with
+  | ok o => exact ⟨.elf o, by simp [tryFormat]⟩
+  | error e1 =>
+    have c1 : [PyExn.structureError, PyExn.elfError].contains e1 = true := by
+      rcases raises_elfInit env data e1 h1 with h | h <;> subst h <;> decide
+    simp only [tryFormat, c1, if_true]
+    -- PE
+    cases h2 : peInit B data with
+    | ok o => exact ⟨_, rfl⟩
+    | error e2 =>
+      have c2 : [PyExn.structureError, PyExn.peError].contains e2 = true := by
+        unfold peInit at h2
+        split at h2
+        · split at h2
+          · cases h2
+          · cases h2; decide
+        · split at h2 <;> cases h2 <;> decide
+      simp only [c2, if_true]
+      cases h3 : machoInit B data with
+      | ok o => exact ⟨_, rfl⟩
+      | error e3 =>
+        have c3 : [PyExn.structureError, PyExn.machoError].contains e3 = true := by
+          unfold machoInit at h3
+          split at h3
+          · split at h3
+            · cases h3
+            · cases h3; decide
+          · cases h3; decide
+        simp only [c3, if_true]
+        cases h4 : coffInit B data with
+        | ok o => exact ⟨_, rfl⟩
+        | error e4 =>
+          have c4 : [PyExn.structureError, PyExn.coffError].contains e4 = true := by
+            unfold coffInit at h4
+            split at h4
+            · split at h4
+              · cases h4
+              · cases h4; decide
+            · cases h4; decide
+          simp only [c4, if_true]
+          cases h5 : hexInit data with
+          | ok o => exact ⟨_, rfl⟩
+          | error e5 =>
+            have c5 : [PyExn.hexError].contains e5 = true := by
+              have := raises_hexInit data e5 h5; subst this; decide
+            simp only [c5, if_true]
+            cases h6 : srecInit data with
+            | ok o => exact ⟨_, rfl⟩
+            | error e6 =>
+              have c6 : [PyExn.srecError].contains e6 = true := by
+                have := raises_srecInit data e6 h6; subst this; decide
+              simp only [c6, if_true]
+              exact ⟨_, rfl⟩
+
+
+/-! ### acceptance predicates are pairwise exclusive (C20) -/
+
+theorem pySlice01_head (line : List Nat) (v : Nat) (h : (pySlice line 0 1 == [v]) = true) :
+    line.head? = some v := by
+  cases line with
+  | nil => simp [pySlice, normIdx] at h
+  | cons c t =>
+    have : pySlice (c :: t) 0 1 = [c] := by
+      have := pySlice_nat' (c :: t) 0 1 0 1 rfl rfl (by simp) (by omega)
+      simpa using this
+    rw [this] at h
+    simp at h
+    simp [h]
+
+theorem hexLineSet_head (raw : List Nat) (l : HexLine) (h : hexLineSet raw = .ok l) :
+    (strip raw).head? = some 58 := by
+  unfold hexLineSet at h
+  cases hb : hexLineBody (strip raw) with
+  | error e => rw [hb] at h; cases e <;> simp [toHexError] at h
+  | ok v =>
+    unfold hexLineBody at hb
+    by_cases hc : (pySlice (strip raw) 0 1 == [58]) = true
+    · exact pySlice01_head _ _ hc
+    · simp [pyAssert, hc, bind, Except.bind] at hb
+
+theorem srecLineSet_head (raw : List Nat) (l : SrecLine) (h : srecLineSet raw = .ok l) :
+    (strip raw).head? = some 83 := by
+  unfold srecLineSet at h
+  cases hb : srecLineBody (strip raw) with
+  | error e => rw [hb] at h; cases e <;> simp [toSrecError] at h
+  | ok v =>
+    unfold srecLineBody at hb
+    by_cases hc : (pySlice (strip raw) 0 1 == [83]) = true
+    · exact pySlice01_head _ _ hc
+    · simp [pyAssert, hc, bind, Except.bind] at hb
+
+theorem hexInitLoop_first (raw : List Nat) (rest : List (List Nat)) (acc : HexFile) (r : HexFile)
+    (h : hexInitLoop (raw :: rest) acc = .ok r) : (strip raw).head? = some 58 := by
+  unfold hexInitLoop at h
+  cases hl : hexLineSet raw with
+  | error e => rw [hl] at h; cases h
+  | ok l => exact hexLineSet_head raw l hl
+
+theorem srecInitLoop_first (raw : List Nat) (rest : List (List Nat)) (acc : SrecFile) (r : SrecFile)
+    (h : srecInitLoop (raw :: rest) acc = .ok r) : strip raw = [] ∨ (strip raw).head? = some 83 := by
+  unfold srecInitLoop at h
+  by_cases hb : (strip raw == []) = true
+  · left; simpa using hb
+  · right
+    simp only [hb, Bool.false_eq_true, if_false] at h
+    cases hl : srecLineSet raw with
+    | error e => rw [hl] at h; cases h
+    | ok l => exact srecLineSet_head raw l hl
+
+theorem readlinesAux_cons (c : Nat) (t cur : List Nat) :
+    ∃ l rest, readlinesAux (c :: t) cur = l :: rest ∧ l.head? = some ((cur.reverse ++ [c]).head?.getD c) := by
+  induction t generalizing c cur with
+  | nil =>
+    unfold readlinesAux
+    by_cases hc : (c == 10) = true
+    · refine ⟨(c :: cur).reverse, readlinesAux [] [], by simp [hc], ?_⟩
+      simp
+    · refine ⟨(c :: cur).reverse, [], by simp [hc, readlinesAux], ?_⟩
+      simp
+  | cons d t ih =>
+    unfold readlinesAux
+    by_cases hc : (c == 10) = true
+    · refine ⟨(c :: cur).reverse, readlinesAux (d :: t) [], by simp [hc], ?_⟩
+      simp
+    · simp only [hc, Bool.false_eq_true, if_false]
+      obtain ⟨l, rest, h1, h2⟩ := ih d (c :: cur)
+      refine ⟨l, rest, h1, ?_⟩
+      rw [h2]
+      simp
+
+theorem readlines_first (c : Nat) (t : List Nat) :
+    ∃ l rest, readlines (c :: t) = l :: rest ∧ l.head? = some c := by
+  obtain ⟨l, rest, h1, h2⟩ := readlinesAux_cons c t []
+  exact ⟨l, rest, h1, by simpa using h2⟩
+
+theorem head_strip (l : List Nat) (c : Nat) (h : l.head? = some c) (hc : isSpace c = false) :
+    (strip l).head? = some c := by
+  cases l with
+  | nil => cases h
+  | cons a t =>
+    simp at h; subst h
+    have h1 : lstrip (a :: t) = a :: t := by simp [lstrip, List.dropWhile, hc]
+    unfold strip
+    rw [h1]
+    unfold rstrip
+    -- reverse, drop trailing spaces, reverse: the first element survives
+    have : ∃ u, (List.dropWhile isSpace (a :: t).reverse) = u ++ [a] := by
+      rw [List.reverse_cons]
+      generalize t.reverse = r
+      induction r with
+      | nil => exact ⟨[], by simp [List.dropWhile, hc]⟩
+      | cons x r ih =>
+        by_cases hx : isSpace x = true
+        · obtain ⟨u, hu⟩ := ih
+          exact ⟨u, by simp [List.dropWhile, hx]; simpa using hu⟩
+        · exact ⟨x :: r, by simp [List.dropWhile, hx]⟩
+    obtain ⟨u, hu⟩ := this
+    rw [hu]
+    simp
+
+/-- HEX: an accepted non-empty file starts (after leading blanks of its first line) with `:`. -/
+theorem accHex_first (d : Bytes) (c : Nat) (h : accHex d = true) (hd : d.head? = some c) (hc : isSpace c = false) :
+    c = 58 := by
+  cases d with
+  | nil => cases hd
+  | cons a t =>
+    simp at hd; subst hd
+    unfold accHex hexInit at h
+    obtain ⟨l, rest, h1, h2⟩ := readlines_first a t
+    rw [h1] at h
+    cases hr : hexInitLoop (l :: rest) { lines := [], entry := .zero, eip := none } with
+    | error e => rw [hr] at h; cases h
+    | ok r =>
+      have := hexInitLoop_first l rest _ r hr
+      rw [head_strip l a h2 hc] at this
+      simpa using this
+
+theorem accSrec_first (d : Bytes) (c : Nat) (h : accSrec d = true) (hd : d.head? = some c) (hc : isSpace c = false) :
+    c = 83 := by
+  cases d with
+  | nil => cases hd
+  | cons a t =>
+    simp at hd; subst hd
+    unfold accSrec srecInit at h
+    obtain ⟨l, rest, h1, h2⟩ := readlines_first a t
+    rw [h1] at h
+    cases hr : srecInitLoop (l :: rest) { lines := [], name := none, entry := none } with
+    | error e => rw [hr] at h; cases h
+    | ok r =>
+      have hs := head_strip l a h2 hc
+      rcases srecInitLoop_first l rest _ r hr with h0 | h0
+      · rw [h0] at hs; cases hs
+      · rw [hs] at h0; simpa using h0
+
+theorem accHex_accSrec (d : Bytes) (h1 : accHex d = true) (h2 : accSrec d = true) : d = [] := by
+  cases d with
+  | nil => rfl
+  | cons a t =>
+    exfalso
+    unfold accHex hexInit at h1
+    unfold accSrec srecInit at h2
+    obtain ⟨l, rest, e1, _⟩ := readlines_first a t
+    rw [e1] at h1 h2
+    cases hr : hexInitLoop (l :: rest) { lines := [], entry := .zero, eip := none } with
+    | error e => rw [hr] at h1; cases h1
+    | ok r =>
+      cases hs : srecInitLoop (l :: rest) { lines := [], name := none, entry := none } with
+      | error e => rw [hs] at h2; cases h2
+      | ok r2 =>
+        have a1 := hexInitLoop_first l rest _ r hr
+        rcases srecInitLoop_first l rest _ r2 hs with h0 | h0
+        · rw [h0] at a1; cases a1
+        · rw [a1] at h0; cases h0
+
+
+
+/-! ### first byte of accepted ELF / PE / Mach-O inputs -/
+
+def BytesOK (d : Bytes) : Prop := ∀ b ∈ d, b < 256
+
+theorem unpackFields_head (be al : Bool) (f : RawField) (fs : List RawField) (data : Bytes) (off : Nat) (r : Rec)
+    (h : unpackFields be al (f :: fs) data off = .ok r) :
+    ∃ v rest, r = (f.name, v) :: rest ∧ rdField be f data (if al then alignUp off f.size else off) = .ok v := by
+  unfold unpackFields at h
+  simp only at h
+  cases hr : rdField be f data (if al = true then alignUp off f.size else off) with
+  | error e => rw [hr] at h; cases h
+  | ok v =>
+    rw [hr] at h
+    simp only at h
+    cases hu : unpackFields be al fs data ((if al = true then alignUp off f.size else off) + f.nbytes) with
+    | error e => rw [hu] at h; cases h
+    | ok rest =>
+      rw [hu] at h
+      simp only [Except.ok.injEq] at h
+      exact ⟨v, rest, h.symm, rfl⟩
+
+theorem rdField_byte0 (be : Bool) (n : String) (data : Bytes) (v : Nat)
+    (h : rdField be ⟨n, 1, 0⟩ data 0 = .ok v) : data.head? = some v := by
+  cases data with
+  | nil => simp [rdField, slice, RawField.nbytes] at h
+  | cons b t =>
+    simp [rdField, slice, RawField.nbytes, fieldVal, leVal, beVal, beNat] at h
+    cases be <;> simp_all
+
+theorem elfIdent_head (data : Bytes) (ident : Rec) (h : elfIdent data = .ok ident) :
+    data.head? = some 0x7f := by
+  unfold elfIdent at h
+  cases hu : structUnpack false identFields data 0 with
+  | error e => rw [hu] at h; cases h
+  | ok id =>
+    rw [hu] at h
+    simp only at h
+    split at h
+    · cases h
+    · rename_i hm
+      unfold structUnpack at hu
+      cases hv : unpackFields false true identFields data 0 with
+      | error e => rw [hv] at hu; simp [toStructureError] at hu
+      | ok r =>
+        rw [hv] at hu
+        simp only [toStructureError, Except.ok.injEq] at hu
+        subst hu
+        obtain ⟨v, rest, hr, hrd⟩ := unpackFields_head false true _ _ data 0 r hv
+        have : (if true = true then alignUp 0 (⟨"ELFMAG0", 1, 0⟩ : RawField).size else 0) = 0 := by decide
+        rw [this] at hrd
+        have hh := rdField_byte0 false _ data v hrd
+        have hv7 : fget r "ELFMAG0" = v := by rw [hr]; simp [fget, List.lookup]
+        simp only [Bool.or_eq_true, bne_iff_ne, ne_eq, not_or, Decidable.not_not] at hm
+        rw [hh, ← hv7, hm.1]
+
+theorem accElf_head (env : ElfEnv) (data : Bytes) (h : accElf env data = true) : data.head? = some 0x7f := by
+  unfold accElf elfInit at h
+  cases hr : elfParseRaw env data with
+  | error e => rw [hr] at h; cases e <;> simp [toElfError, Except.isOk, Except.toBool] at h
+  | ok o =>
+    unfold elfParseRaw at hr
+    cases ht : elfTables env data with
+    | error e => rw [ht] at hr; simp [bind, Except.bind] at hr
+    | ok t =>
+      unfold elfTables at ht
+      cases hi : elfIdent data with
+      | error e => rw [hi] at ht; cases ht
+      | ok ident => exact elfIdent_head data ident hi
+
+theorem peHeaderOK_head (data : Bytes) (h : peHeaderOK data = true) : data.head? = some 77 := by
+  unfold peHeaderOK at h
+  simp only [Bool.and_eq_true] at h
+  obtain ⟨⟨_, h2⟩, _⟩ := h
+  cases data with
+  | nil => simp [slice] at h2
+  | cons b t =>
+    cases t with
+    | nil => simp [slice] at h2
+    | cons c u => simp [slice] at h2; simp [h2.1]
+
+theorem leVal_mod (b : Nat) (t : Bytes) (hb : b < 256) : leVal (b :: t) % 256 = b := by
+  simp [leVal]; omega
+
+theorem machoHeaderOK_head (data : Bytes) (hok : BytesOK data) (h : machoHeaderOK data = true) :
+    data.head? = some 0xCE ∨ data.head? = some 0xCF ∨ data.head? = some 0xCA := by
+  unfold machoHeaderOK at h
+  simp only [Bool.and_eq_true, decide_eq_true_eq] at h
+  obtain ⟨hlen, hm⟩ := h
+  match data, hlen, hok with
+  | b0 :: b1 :: b2 :: b3 :: t, _, hok =>
+    have hb : b0 < 256 := hok b0 (by simp)
+    have hs : slice (b0 :: b1 :: b2 :: b3 :: t) 0 4 = [b0, b1, b2, b3] := by simp [slice]
+    rw [hs] at hm
+    have hmod := leVal_mod b0 [b1, b2, b3] hb
+    simp only [Bool.or_eq_true, beq_iff_eq, Bool.and_eq_true, decide_eq_true_eq] at hm
+    rcases hm with (hm | ⟨hm, _⟩) | hm <;> rw [hm] at hmod <;> simp at hmod <;> simp [← hmod]
+
 
 end Amoco.Fmt
